@@ -1742,6 +1742,25 @@ func (w *Writer) writeMathExpression(e ir.ExprMath) error {
 		}
 	}
 
+	// HLSL sign() returns int (or intN) for every operand type: convert the result back to the
+	// floating-point type of the operand, so that asuint(sign(x)) and overload resolution see a float
+	// (f16 operands keep the plain call: there the reference output pins it).
+	if e.Fun == ir.MathSign {
+		if sc := w.getExprScalar(e.Arg); sc != nil && sc.Kind == ir.ScalarFloat && sc.Width >= 4 {
+			name := scalarTypeToHLSL(*sc)
+			if n := w.getExpressionVectorSize(e.Arg); n > 1 {
+				name = vectorTypeToHLSL(ir.VectorType{Size: ir.VectorSize(n), Scalar: *sc})
+			}
+			w.Out.WriteString(name)
+			w.Out.WriteString("(sign(")
+			if err := w.writeExpression(e.Arg); err != nil {
+				return fmt.Errorf("math arg: %w", err)
+			}
+			w.Out.WriteString("))")
+			return nil
+		}
+	}
+
 	funcName, err := mathFunctionToHLSL(e.Fun)
 	if err != nil {
 		return err
